@@ -3,14 +3,14 @@
    R: other threads may set it (0 -> 1) at any time; nobody ever clears it. */
 #include "vp_note.h"
 struct vp_note_ghost vp_nt;
+#define VP_NT_CLR(i) vp_nt.note[i] = NULL; vp_nt.seen_set[i] = 0; vp_nt.set_by_me[i] = 0; vp_nt.private_[i] = 0
 void vp_note_reset (void) {
-	int i;
-	for (i = 0; i != VP_NT_MAX; i++) { vp_nt.note[i] = NULL; vp_nt.seen_set[i] = 0; vp_nt.set_by_me[i] = 0; vp_nt.private_[i] = 0; }
+	VP_NT_CLR (0); VP_NT_CLR (1); VP_NT_CLR (2); VP_NT_CLR (3);
 	vp_nt.notify_calls = 0;
 }
-int vp_note_index (nsync_atomic_uint32_ *p) {
-	int i;
-	for (i = 0; i != VP_NT_MAX; i++) { if (vp_nt.note[i] != NULL && p == &vp_nt.note[i]->notified) return i; }
+#define VP_NT_IS(i) if (vp_nt.note[i] != NULL && p == &vp_nt.note[i]->notified) return i
+int vp_note_index (nsync_atomic_uint32_ *p) {   /* (no loop: VP_NT_MAX == 4) */
+	VP_NT_IS (0); VP_NT_IS (1); VP_NT_IS (2); VP_NT_IS (3);
 	return -1;
 }
 static void flag_interfere (int i, nsync_atomic_uint32_ *p) {
